@@ -6,6 +6,8 @@ import (
 	"github.com/Azbesciak/RealDecisionMaker/lib/utils"
 )
 
+const maxCriteriaAfterAddition = 16
+
 type ChoquetIntegralBiasListener struct {
 }
 
@@ -22,6 +24,11 @@ func (c *ChoquetIntegralBiasListener) OnCriterionAdded(
 	parsedParams := params.(choquetParams)
 	oldWeights := parsedParams.weights
 	newCriteria := parsedParams.criteria.Add(criterion)
+	if len(newCriteria) > maxCriteriaAfterAddition {
+		// every added criterion doubles the number of capacities: a request repeating a criterion-adding bias must
+		// be refused before the capacities exhaust the memory
+		panic(fmt.Errorf("choquet integral: cannot add criterion '%s', at most %d criteria are supported", criterion.Id, maxCriteriaAfterAddition))
+	}
 	newWeightsKeys := PowerSet(*newCriteria.Names())
 	newWeights := make(model.Weights, len(*newWeightsKeys))
 	for _, k := range *newWeightsKeys {
